@@ -1,17 +1,23 @@
 (** C08 - Results do not depend on how bytes are split across reads, writes, flushes.
-    Statements only; proofs in Proofs/StreamProofs.v, Proofs/ReaderProofs.v.
+    Statements only; proofs in Proofs/StreamProofs.v, Proofs/ReaderProofs.v, Proofs/LogProofs.v,
+    Proofs/SegmentProofs.v.
 
     Proved: the stream primitives (io.ReadFull, io.CopyN, io.Copy through hardLimitReader),
     readRequestMessage and the whole transformingReader see the client's body only as its byte
     string [flat u]: any two bodies with the same bytes and the same terminal status - however
     chunked, with or without io.EOF accompanying the last data - give the backend the same Reads.
-    Not proved here (named _partial): the same for envelopingReader, whose individual Reads mirror
-    the client's chunks (only their concatenation is invariant), and for the writers' independence
-    of the handler's Write segmentation.  Both are exercised by the correspondence suites
-    (reader: every chunking x every read size; segments: one response under several segmentations
-    must be identical). *)
+    Response side: a handler that passes the same bytes to Write in one piece or cut anywhere into
+    non-empty pieces - at any point of any script, with request-side failures anywhere around it,
+    for all five body writers - leaves on the client's connection the same head, the same body
+    bytes between the same flushes, the same end, and sees the same success or failure
+    (C08_write_split_invisible, C08_write_chunking_invisible; Flush is a no-op of the
+    responseWriter, so flush placement by the handler is covered by the same statements).
+    Not proved here (named _partial): envelopingReader, whose individual Reads mirror the client's
+    chunks (only their concatenation is invariant); it is exercised by the reader suite (every
+    chunking x every read size). *)
 From VG Require Import Model.Bytes Model.Stream Model.Envelope Model.Reader.
-From VG Require Import Proofs.StreamProofs Proofs.ReaderProofs.
+From VG Require Import Model.Response Model.Serve.
+From VG Require Import Proofs.StreamProofs Proofs.ReaderProofs Proofs.LogProofs Proofs.SegmentProofs.
 Open Scope Z_scope.
 
 Theorem C08_read_full_chunking : forall fuel n u acc, (length (u_chunks u) < fuel)%nat ->
@@ -55,3 +61,46 @@ Example C08_ex :
   run [ex_body] false = run [firstn 2 ex_body; []; skipn 2 ex_body] false /\
   length (run [ex_body] false) = 6%nat.
 Proof. vm_compute. repeat split; reflexivity. Qed.
+
+(** * The response side *)
+
+(** One Write of [a ++ b] or two Writes [a], [b] (b non-empty), anywhere in a script: what the
+    client's connection sees ([blocks]: the log with adjacent body writes merged), the outcome of
+    the exchange and whether all Writes succeeded are the same. *)
+Theorem C08_write_split_invisible : forall cx h s1 a b s2, b <> [] ->
+  observable (serve_response cx h (s1 ++ BWrite (a ++ b) :: s2)) = observable (serve_response cx h (s1 ++ BWrite a :: BWrite b :: s2)).
+Proof. exact write_split_invisible. Qed.
+Print Assumptions C08_write_split_invisible.
+
+(** ... hence any cutting of a run of bytes into Writes *)
+Theorem C08_write_chunking_invisible : forall cx h s1 s2 cs c0, Forall (fun c => c <> []) cs ->
+  observable (serve_response cx h (s1 ++ map BWrite (c0 :: cs) ++ s2)) =
+  observable (serve_response cx h (s1 ++ BWrite (c0 ++ concat cs) :: s2)).
+Proof. exact write_chunking_invisible. Qed.
+Print Assumptions C08_write_chunking_invisible.
+
+(** Nothing on the response side reads the log of what was already sent: every operation commutes
+    with putting events in front of it. *)
+Theorem C08_response_side_never_reads_its_log : forall cx h s o,
+  (let '(r, wr) := run_script cx s (prer o (rw_init h)) [] in
+   if existsb (fun x => match x with WPanic => true | _ => false end) wr then (r, wr, WPanic)
+   else let '(r', res) := rw_close cx r in (r', wr, res))
+  = (let '(r, wr, res) := serve_response cx h s in (prer o r, wr, res)).
+Proof. exact serve_response_pre. Qed.
+Print Assumptions C08_response_side_never_reads_its_log.
+
+(** Non-vacuity: two gRPC messages for a gRPC-Web client, written whole, byte by byte, and cut
+    inside the second prefix.  The raw logs differ, what the client sees does not. *)
+Definition ex_wcx : wctx :=
+  mkWctx CGrpcWeb SGrpc (Some WebC) (Some GrpcS) 1000 [s2b "gzip"] (s2b "proto") (s2b "proto") true false
+         (mkOr (fun b => Some b) (fun b => Some b) (fun b => Some b) (fun b => b) (fun _ => false))
+         (mkEor (fun _ => None) (fun _ => None) (fun _ => None) (fun _ _ _ => None)) (fun _ => 10).
+Definition ex_resp := h "000000000361626300000000026465".
+Definition ex_pre := [BHset (s2b "Content-Type") (s2b "application/grpc+proto"); BStatus 200].
+Example C08_ex_writes :
+  let run ws := serve_response ex_wcx [] (ex_pre ++ map BWrite ws) in
+  observable (run [ex_resp]) = observable (run (map (fun b => [b]) ex_resp)) /\
+  observable (run [ex_resp]) = observable (run [firstn 10 ex_resp; skipn 10 ex_resp]) /\
+  length (c_out (r_core (fst (fst (run [ex_resp]))))) <> length (c_out (r_core (fst (fst (run (map (fun b => [b]) ex_resp)))))) /\
+  snd (observable (run [ex_resp])) = true.
+Proof. vm_compute. repeat split; try reflexivity. discriminate. Qed.
